@@ -215,7 +215,9 @@ Construct(cname, o, args, s) ==
         s1 == InitFields(c.fields, 1, o, cname, [s EXCEPT !.fuel = s.fuel - 1]) IN
     IF ~Running(s1) THEN s1
     ELSE IF init.k # "absent" THEN
-         LET r == CallFun(init, ObjV(o), args, s1) IN r
+         \* an explicit __init__: the constructors of the parents run first, in the order of the class header, with their arguments
+         \* evaluated among the parameters of __init__; then its body
+         LET r == CallFun([init EXCEPT !.b = [j \in 1..Len(c.parents) |-> [k |-> "pinit", c |-> c.parents[j].c, args |-> c.parents[j].args]] \o init.b], ObjV(o), args, s1) IN r
     ELSE IF Len(args) > Len(c.args) THEN Bad(s1, "wrong:TypeError")
     ELSE LET b == BindParams(c.args, args, 1, EmptyEnv, s1) IN
          IF ~Running(b) THEN b
@@ -330,6 +332,8 @@ X(st, s) ==
                             ELSE IF ~Printable(r.v) THEN Bad(r, "unsupported:print-object") ELSE [r EXCEPT !.out = Append(r.out, Show(r.v))]
       [] st.k = "expr"   -> E(st.e, s)
       [] st.k = "pass"   -> s
+      [] st.k = "pinit"  -> IF st.c \notin DOMAIN s.cls THEN s
+                            ELSE LET a == EArgs(st.args, 1, <<>>, s) IN IF ~Running(a) THEN a ELSE Construct(st.c, s.l["self"].r, a.v.v, a)
       [] st.k = "if"     -> LET c == E(st.c, s) IN IF ~Running(c) THEN c ELSE IF c.v.t # "bool" THEN Bad(c, "wrong:TypeError")
                             ELSE IF c.v.v THEN XB(st.t, 1, c) ELSE XB(st.e, 1, c)
       [] st.k = "while"  -> WhileLoop(st.c, st.b, s)
